@@ -29,7 +29,31 @@ fn idle(ms: Option<u64>) -> Option<Duration> {
 
 /// Server configuration through builder path `path` (0..=4) with the given timer settings.
 pub fn server_cfg(path: u8, addr: SocketAddr, identity: Identity, idle_ms: Option<u64>, keep_alive_ms: Option<u64>, migration: bool, seed: [u8; 32]) -> ServerConfig {
+    server_cfg_d(path, addr, identity, idle_ms, keep_alive_ms, migration, seed, false)
+}
+
+/// `decoy`: other values are configured first (earlier builder calls, or the custom transport
+/// configuration handed to the builder) and then overridden by the requested ones - the last
+/// explicit setting is the one that must apply.
+#[allow(clippy::too_many_arguments)]
+pub fn server_cfg_d(path: u8, addr: SocketAddr, identity: Identity, idle_ms: Option<u64>, keep_alive_ms: Option<u64>, migration: bool, seed: [u8; 32], decoy: bool) -> ServerConfig {
     let b = ServerConfig::builder().with_bind_address(addr);
+    if decoy {
+        let d_idle = Some(Duration::from_millis(7_000));
+        let d_ka = Some(Duration::from_millis(400));
+        let mut tc = quinn::TransportConfig::default();
+        tc.max_idle_timeout(d_idle.map(|d| quinn::IdleTimeout::try_from(d).unwrap()));
+        tc.keep_alive_interval(d_ka);
+        let w = match path % 4 {
+            0 => b.with_identity(identity).max_idle_timeout(d_idle).expect("valid").keep_alive_interval(d_ka),
+            1 => b.with_custom_tls(wtransport::tls::server::build_default_tls_config(identity)).keep_alive_interval(d_ka).max_idle_timeout(d_idle).expect("valid"),
+            2 => b.with_custom_transport(identity, tc),
+            _ => b.with_custom_tls_and_transport(wtransport::tls::server::build_default_tls_config(identity), tc),
+        };
+        let mut cfg = w.allow_migration(!migration).max_idle_timeout(idle(idle_ms)).expect("valid idle timeout").keep_alive_interval(idle(keep_alive_ms)).allow_migration(migration).build();
+        cfg.quic_endpoint_config_mut().rng_seed(Some(seed));
+        return cfg;
+    }
     let mut cfg = match path {
         0 => b.with_identity(identity).max_idle_timeout(idle(idle_ms)).expect("valid idle timeout").keep_alive_interval(idle(keep_alive_ms)).allow_migration(migration).build(),
         1 => b
@@ -67,7 +91,30 @@ pub fn server_cfg(path: u8, addr: SocketAddr, identity: Identity, idle_ms: Optio
 }
 
 pub fn client_cfg(path: u8, addr: SocketAddr, pin: Option<Sha256Digest>, idle_ms: Option<u64>, keep_alive_ms: Option<u64>, seed: [u8; 32]) -> ClientConfig {
+    client_cfg_d(path, addr, pin, idle_ms, keep_alive_ms, seed, false)
+}
+
+pub fn client_cfg_d(path: u8, addr: SocketAddr, pin: Option<Sha256Digest>, idle_ms: Option<u64>, keep_alive_ms: Option<u64>, seed: [u8; 32], decoy: bool) -> ClientConfig {
     let b = ClientConfig::builder().with_bind_address(addr);
+    if decoy {
+        let d_idle = Some(Duration::from_millis(7_000));
+        let d_ka = Some(Duration::from_millis(400));
+        let mut tc = quinn::TransportConfig::default();
+        tc.max_idle_timeout(d_idle.map(|d| quinn::IdleTimeout::try_from(d).unwrap()));
+        tc.keep_alive_interval(d_ka);
+        let w = match path % 4 {
+            0 => b.with_no_cert_validation().max_idle_timeout(d_idle).expect("valid").keep_alive_interval(d_ka),
+            1 => b.with_custom_tls(harness::no_verify_client_tls()).keep_alive_interval(d_ka).max_idle_timeout(d_idle).expect("valid"),
+            2 => b.with_custom_tls_and_transport(harness::no_verify_client_tls(), tc),
+            _ => match pin {
+                Some(h) => b.with_server_certificate_hashes([h]).max_idle_timeout(d_idle).expect("valid").keep_alive_interval(d_ka),
+                None => b.with_no_cert_validation().keep_alive_interval(d_ka),
+            },
+        };
+        let mut cfg = w.max_idle_timeout(idle(idle_ms)).expect("valid idle timeout").keep_alive_interval(idle(keep_alive_ms)).build();
+        cfg.quic_endpoint_config_mut().rng_seed(Some(seed));
+        return cfg;
+    }
     let mut cfg = match path {
         0 => b.with_no_cert_validation().max_idle_timeout(idle(idle_ms)).expect("valid idle timeout").keep_alive_interval(idle(keep_alive_ms)).build(),
         1 => b.with_custom_tls(harness::no_verify_client_tls()).max_idle_timeout(idle(idle_ms)).expect("valid idle timeout").keep_alive_interval(idle(keep_alive_ms)).build(),
@@ -122,6 +169,9 @@ pub struct TimerPlan {
     pub client_path: u8,
     pub server_path: u8,
     pub situation: Situation,
+    /// bit 0: the client, bit 1: the server configures other timer values first (see `server_cfg_d`)
+    #[serde(default)]
+    pub decoy: u8,
 }
 
 const IDLES: [Option<u64>; 8] = [None, Some(1_000), Some(2_500), Some(10_000), Some(30_000), Some(120_000), Some(600_000), Some(3_600_000)];
@@ -152,6 +202,7 @@ pub fn gen_timer(seed: u64, _index: usize) -> TimerPlan {
         client_path: rng.below(5) as u8,
         server_path: rng.below(5) as u8,
         situation: if rng.coin() { Situation::IdleHealthy } else { Situation::Blackhole { at_ms: *rng.pick(&[0u64, 10, 700, 5_000]) } },
+        decoy: if rng.chance_pm(350) { rng.range(1, 3) as u8 } else { 0 },
     }
 }
 
@@ -170,8 +221,8 @@ pub fn exec_timer(p: &TimerPlan, trace: bool) -> Exec {
         let caddr: SocketAddr = harness::CLIENT_ADDR.parse().unwrap();
         let identity = p256_identity();
         let pin = identity.certificate_chain().as_slice()[0].hash();
-        let (sep, ssock) = harness::server_on(&net, server_cfg(p.server_path, saddr, identity, p.server_idle_ms, p.server_keep_alive_ms, true, r.seed32()), saddr);
-        let (cep, csock) = harness::client_on(&net, client_cfg(p.client_path, caddr, Some(pin), p.client_idle_ms, p.client_keep_alive_ms, r.seed32()), caddr);
+        let (sep, ssock) = harness::server_on(&net, server_cfg_d(p.server_path, saddr, identity, p.server_idle_ms, p.server_keep_alive_ms, true, r.seed32(), p.decoy & 2 != 0), saddr);
+        let (cep, csock) = harness::client_on(&net, client_cfg_d(p.client_path, caddr, Some(pin), p.client_idle_ms, p.client_keep_alive_ms, r.seed32(), p.decoy & 1 != 0), caddr);
         let pair = harness::Pair { net: net.clone(), server_ep: sep, client_ep: cep, server_sock: ssock, client_sock: csock };
         let (cconn, sconn) = harness::establish(&pair, &harness::default_url()).await?;
         let alpn_ok = cconn.handshake_data().alpn() == Some(&b"h3"[..]) && sconn.handshake_data().alpn() == Some(&b"h3"[..]);
